@@ -3,6 +3,7 @@ from h5 import gen, lean, trees, wire
 
 ID = "C15"
 PROPS_MODULE = "H5.Props.C15"
+EXTRA_PROPS_MODULES = ["H5.Props.C15b"]
 GEN_MODULES = []
 CORRESPONDENCE_OPS = ["inject"]
 SOURCES = ["html5lib/filters/inject_meta_charset.py", "html5lib/serializer.py", "html5lib/_inputstream.py",
